@@ -561,3 +561,28 @@ func headString(s string, n int) string {
 	}
 	return s
 }
+
+// Parallel runs f(0..n-1) on `workers` goroutines (cases are independent and seed-determined, so
+// the verdicts do not depend on the schedule).
+func Parallel(n, workers int, f func(i int)) {
+	if workers < 1 {
+		workers = 1
+	}
+	ch := make(chan int)
+	done := make(chan struct{})
+	for w := 0; w < workers; w++ {
+		go func() {
+			defer func() { done <- struct{}{} }()
+			for i := range ch {
+				f(i)
+			}
+		}()
+	}
+	for i := 0; i < n; i++ {
+		ch <- i
+	}
+	close(ch)
+	for w := 0; w < workers; w++ {
+		<-done
+	}
+}
